@@ -160,6 +160,134 @@ fn one_vector(an: &[u32], ns: &[u32], ar: &[u32]) -> (u64, String, Vec<Violation
     (n, class, vs)
 }
 
+/// Histories with two insertions under the same key: reply 1 (TTL l1) at t=0, reply 2 (TTL l2,
+/// different record data) after `gap_ms`, optionally an expiry sweep in between, then lookups at
+/// several instants.  A hit must be explainable by ONE of the two insertions: the record data of
+/// reply i, served no later than l_i after insertion i, TTL = l_i - floor(elapsed since i).
+fn reinsert_history(l1: u32, l2: u32, gap_ms: u64, sweep_between: bool) -> (u64, String, Vec<Violation>) {
+    let q = rd::name("www.example.com");
+    let mk = |ttl: u32, marker: u8| {
+        let mut p = crate::checks::c14::base_pkt(&q);
+        p.answer = vec![rd::rr_to_erbium(&Rr { name: q.clone(), rtype: rd::T_A, class: 1, ttl, rdata: rd::Rdata::Raw(vec![10, 9, 9, marker]) })];
+        p
+    };
+    let (r1, r2) = (mk(l1, 1), mk(l2, 2));
+    let case = json!({"engine":"c06","part":"reinsert","ttl1":l1,"ttl2":l2,"gap_ms":gap_ms,"sweep_between":sweep_between});
+    let rt = tokio::runtime::Builder::new_current_thread().enable_time().start_paused(true).build().expect("rt");
+    let r = panics::catch(|| {
+        rt.block_on(async {
+            let mut out: Vec<(&'static str, String)> = vec![];
+            let mut n = 0u64;
+            let mut h = Harness::new();
+            let dom = rd::to_domain(&q);
+            let e1 = h.calculate_expiry(&r1);
+            if e1 > Duration::ZERO {
+                h.insert(&dom, dnspkt::Type(1), false, false, &r1, e1);
+            }
+            tokio::time::advance(Duration::from_millis(gap_ms)).await;
+            if sweep_between {
+                h.expire();
+            }
+            let e2 = h.calculate_expiry(&r2);
+            if e2 > Duration::ZERO {
+                h.insert(&dom, dnspkt::Type(1), false, false, &r2, e2);
+            }
+            let (m1, m2) = (l1 as u128 * 1000, l2 as u128 * 1000);
+            let mut ds: Vec<u128> = vec![0, 1, 999, 1000, m2.saturating_sub(1), m2, m2 + 1, m2 + 1000, m1.saturating_sub(gap_ms as u128), m1.saturating_sub(gap_ms as u128) + 1, m1, m1 + 1, m1.max(m2) + 31_000];
+            ds.sort();
+            ds.dedup();
+            let mut elapsed2: u128 = 0;
+            let mut hits = 0u32;
+            for d in ds {
+                if d > elapsed2 {
+                    tokio::time::advance(Duration::from_millis((d - elapsed2) as u64)).await;
+                    elapsed2 = d;
+                }
+                for sweep in [false, true] {
+                    if sweep {
+                        h.expire();
+                    }
+                    n += 1;
+                    if let Some(res) = h.lookup(&dom, dnspkt::Type(1), false, false) {
+                        hits += 1;
+                        match res {
+                            Err(e) => out.push(("cached-error", format!("cache returned an error for a cached reply: {e}"))),
+                            Ok(pkt) => {
+                                let Some(rr) = pkt.answer.first() else {
+                                    out.push(("reinsert-served", "cache hit without the answer record".into()));
+                                    continue;
+                                };
+                                let marker = match &rd::rr_from_erbium(rr).rdata {
+                                    rd::Rdata::Raw(v) if v.len() == 4 => v[3],
+                                    _ => 0,
+                                };
+                                let elapsed1 = d + gap_ms as u128;
+                                let ok1 = marker == 1 && elapsed1 <= m1 && rr.ttl as u128 == (l1 as u128).saturating_sub(elapsed1 / 1000);
+                                let ok2 = marker == 2 && d <= m2 && rr.ttl as u128 == (l2 as u128).saturating_sub(d / 1000);
+                                if !(ok1 || ok2) {
+                                    let which = if marker == 1 { "first" } else { "second" };
+                                    let (age, ttl) = if marker == 1 { (elapsed1, l1) } else { (d, l2) };
+                                    out.push((
+                                        if age > ttl as u128 * 1000 { "served-past-ttl" } else { "ttl-ageing" },
+                                        format!("insert TTL {l1}s, {gap_ms} ms later (sweep between: {sweep_between}) insert TTL {l2}s under the same key; {d} ms after that the cache serves the {which} reply, obtained {age} ms ago with TTL {ttl}s, carrying TTL {}", rr.ttl),
+                                    ));
+                                }
+                            }
+                        }
+                    }
+                }
+            }
+            (out, n, hits)
+        })
+    });
+    match r {
+        Err(p) => (1, "reinsert:panic".into(), vec![Violation::new("cache-panic", format!("cache code panicked in a re-insertion history (TTL {l1}s, gap {gap_ms} ms, TTL {l2}s): {} at {}", p.msg, panics::short_loc(&p.loc)), case).sig("loc", panics::short_loc(&p.loc))]),
+        Ok((out, n, hits)) => {
+            let mut vs = vec![];
+            let mut seen = std::collections::BTreeSet::new();
+            for (o, w) in out {
+                if seen.insert(o) {
+                    vs.push(Violation::new(o, w, case.clone()).sig("part", "reinsert"));
+                }
+            }
+            let rel = if gap_ms as u128 > l1 as u128 * 1000 { "after-expiry" } else { "while-live" };
+            (n, format!("reinsert:{rel}:{}:{}", if sweep_between { "swept" } else { "unswept" }, if hits > 0 { "hit" } else { "nohit" }), vs)
+        }
+    }
+}
+
+fn reinsert_part(rep: &mut Report, thorough: bool) -> (u64, std::collections::BTreeSet<String>) {
+    let ttls: Vec<u32> = if thorough { vec![0, 1, 2, 5, 8, 30, 60, 300, 86400] } else { vec![0, 1, 2, 8, 30, 300] };
+    let mut work = vec![];
+    for l1 in &ttls {
+        for l2 in &ttls {
+            let m1 = *l1 as u64 * 1000;
+            let mut gaps = vec![0, 1, m1.saturating_sub(1), m1, m1 + 1, m1 + 1000, m1 + 29_000, m1 + 31_000];
+            gaps.sort();
+            gaps.dedup();
+            for g in gaps {
+                for sw in [false, true] {
+                    work.push((*l1, *l2, g, sw));
+                }
+            }
+        }
+    }
+    let outs: Vec<(u64, String, Vec<Violation>)> = work.par_iter().map(|(a, b, g, s)| reinsert_history(*a, *b, *g, *s)).collect();
+    let mut n = 0;
+    let mut classes = std::collections::BTreeSet::new();
+    let mut seen = std::collections::BTreeSet::new();
+    for (k, c, vs) in outs {
+        n += k;
+        classes.insert(c);
+        for v in vs {
+            if seen.insert(v.oracle.clone()) || rep.violations.len() < 30 {
+                rep.violation(v);
+            }
+        }
+    }
+    (n, classes)
+}
+
 fn function_part(rep: &mut Report, thorough: bool) -> (u64, std::collections::BTreeSet<String>) {
     let big = section_lists(2);
     let small = if thorough { section_lists(2) } else { section_lists(1) };
@@ -419,6 +547,11 @@ pub fn run(tier: &str, replay: Option<Value>) -> ! {
         let case = if case.get("case").is_some() { case["case"].clone() } else { case };
         if case["engine"].as_str() == Some("enet") {
             netrun::replay_one(&mut rep, &case, run_case);
+        } else if case["part"].as_str() == Some("reinsert") {
+            let u = |k: &str| case[k].as_u64().unwrap_or(0);
+            for v in reinsert_history(u("ttl1") as u32, u("ttl2") as u32, u("gap_ms"), case["sweep_between"].as_bool().unwrap_or(false)).2 {
+                rep.violation(v);
+            }
         } else {
             let g = |k: &str| -> Vec<u32> { case[k].as_array().map(|a| a.iter().filter_map(|x| x.as_u64()).map(|x| x as u32).collect()).unwrap_or_default() };
             for v in one_vector(&g("an"), &g("ns"), &g("ar")).2 {
@@ -427,7 +560,10 @@ pub fn run(tier: &str, replay: Option<Value>) -> ! {
         }
         rep.finish();
     }
-    let (n, classes) = function_part(&mut rep, tier == "thorough");
+    let (n, mut classes) = function_part(&mut rep, tier == "thorough");
+    let (n_re, c_re) = reinsert_part(&mut rep, tier == "thorough");
+    let n = n + n_re;
+    classes.extend(c_re);
     let agg = netrun::run_sharded(&mut rep, "C06", tier, cases, 16);
     let lq = agg.stats_sum.get("live_queries").copied().unwrap_or(0.0) as u64;
     rep.cov("states", classes.len() as u64 + agg.classes.len() as u64);
@@ -435,7 +571,7 @@ pub fn run(tier: &str, replay: Option<Value>) -> ! {
     rep.cov("traces_validated_against_impl", n + lq);
     rep.cov("evaluations", n + lq);
     rep.cov("distinct_nontrivial", classes.len() as u64 + agg.classes.len() as u64);
-    rep.cov("rule", "function: TTL vectors over {0,1,2,59,60,61,2^31,2^32-1}: one section over all lists of length <=2, the other two over lists of length <=1 (thorough <=2), all three choices of the varied section; for each, the real calculate_expiry/insert/get_entry/expire under tokio's paused clock at elapsed {0, 0.999, 1, min-1, min-0.001, min, min+0.001, min+1} s x 7 probe keys, before and after an expire sweep. live: TTL {0,1,2,60} x class {IN,CH} x UDP/TCP asked at +0, +1.5 s and just past expiry; key variants (type, DO, CD, name, class); minimum over sections. transitions = cache lookups + live queries");
+    rep.cov("rule", "function: TTL vectors over {0,1,2,59,60,61,2^31,2^32-1}: one section over all lists of length <=2, the other two over lists of length <=1 (thorough <=2), all three choices of the varied section; for each, the real calculate_expiry/insert/get_entry/expire under tokio's paused clock at elapsed {0, 0.999, 1, min-1, min-0.001, min, min+0.001, min+1} s x 7 probe keys, before and after an expire sweep; re-insertion histories: TTL l1 at t=0, TTL l2 (other record data) after a gap in {0, 1 ms, l1-1ms, l1, l1+1ms, l1+1s, l1+29s, l1+31s} with/without a sweep between, l1,l2 in {0,1,2,8,30,300} (thorough 9 values), looked up at 13 instants with/without sweep: every hit must be explained by one of the two insertions. live: TTL {0,1,2,60} x class {IN,CH} x UDP/TCP asked at +0, +1.5 s and just past expiry; key variants (type, DO, CD, name, class); minimum over sections. transitions = cache lookups + live queries");
     rep.cov("exhaustive", true);
     rep.cov("function_classes", json!(classes));
     rep.cov("live_classes", json!(agg.classes));
